@@ -209,6 +209,9 @@ def prop_modules(prop):
         mods.append("GenTie")
     if prop in GENTIE_ABS_PROPS and os.path.exists(os.path.join(LEAN, "HidiProofs", "Props", "GenTieAbs.lean")):
         mods.append("GenTieAbs")
+    # whole histories through the regenerated event path (keys, axes, SYN, MIDI input) = the model's run
+    if prop in ("C01", "C05") and os.path.exists(os.path.join(LEAN, "HidiProofs", "Props", "GenTieRun.lean")):
+        mods.append("GenTieRun")
     return mods
 
 
